@@ -284,7 +284,7 @@ impl C09 {
                     // the application (or an earlier session) left a non-default data rate in force at join time
                     ops.push(Op::SetDr(if r.chance(1, 2) { *ups.last().unwrap() } else { *r.pick(&ups) }));
                 }
-                let failed = if r.chance(1, 3) { r.range(1, 12) } else { 0 };
+                let failed = if r.chance(1, 3) { if r.chance(1, 5) { r.range(20, 80) } else { r.range(1, 12) } } else { 0 };
                 for _ in 0..failed {
                     ops.push(Op::Join(Txn::default()));
                 }
